@@ -916,18 +916,121 @@ example :
       = .err (Err.new (.unsupportedShape "enum" (some "struct with named fields"))) := ⟨rfl, rfl⟩
 
 /-!
-  D1 — "A receiver declaring `supports(...)` accepts an input exactly when …" fails for NEWTYPE
-  receivers (`struct W(Inner);`): `FromDeriveInputImpl::to_tokens` returns early for them and
-  never emits `__validate_body`; the model (`Env.runOuter`) has the same early return.  The
-  declaration is read (and checked for spelling) at derive time and then dropped. -/
+  D1 (REPAIRED) — "A receiver declaring `supports(...)` accepts an input exactly when …" used to
+  fail for NEWTYPE receivers (`struct W(Inner);`): `FromDeriveInputImpl::to_tokens` returned
+  early for them and never emitted `__validate_body`.  The library now calls the receiver's own
+  validator in the newtype arm before it delegates, and `Env.runOuter` mirrors that.  The
+  statements below are the positive property for newtype receivers. -/
 
-/-- D1: for a newtype receiver the run does not depend on the declared `supports` at all -/
-theorem newtype_receiver_ignores_supports (env : Env.T) (run conv) (r : Options.ROuter)
-    (el : Derive.Elem) (f : Options.RField) (h : r.base.data = .struct .tuple [f])
-    (s : Option DISS) :
-    Env.runOuter env run conv { r with supports := s } el = Env.runOuter env run conv r el := by
-  unfold Env.runOuter
-  simp only [h]
+/-- the emitted validator never panics, whatever the declaration (not only a parsed one) -/
+theorem validateBody_never_panics (d : DISS) (b : BodyShape) (m : String) :
+    d.validateBody b ≠ .panic m := by
+  intro h
+  unfold DISS.validateBody at h
+  split at h
+  · cases h
+  · cases b with
+    | union => cases h
+    | struct s =>
+        simp only at h
+        unfold DISS.validateStruct at h
+        split at h
+        · obtain ⟨x, hx⟩ := display_ok d.enumValues.toShapeSet
+          simp only [hx] at h
+          cases h
+        · exact check_never_panics _ _ _ h
+    | «enum» vs =>
+        simp only at h
+        unfold DISS.validateEnum at h
+        split at h
+        · obtain ⟨x, hx⟩ := display_ok d.structValues.toShapeSet
+          simp only [hx] at h
+          cases h
+        · rw [checkVariants_spec, List.nil_append] at h
+          cases hf : (vs.filter (fun v => !d.enumValues.toShapeSet.containsShape v)) with
+          | nil => simp [hf] at h
+          | cons x xs => cases xs <;> simp [hf, List.map, Err.bundleErr, Err.multiple] at h
+
+/-- what a newtype receiver does once its own shape check has passed: the inner receiver is
+    asked, and its value is wrapped -/
+def newtypeDelegation (run : String → Derive.Elem → Outcome Val) (r : Options.ROuter)
+    (f : Options.RField) (el : Derive.Elem) : Outcome Val :=
+  match f.ty with
+  | .recv inner => (run inner el).map (fun v => .record r.base.ident [("0", v)])
+  | _ => .err (Err.custom "unsupported newtype inner")
+
+/-- **C18, newtype receivers.**  A newtype `FromDeriveInput` receiver declaring `supports(..)`
+    runs its own validator on the body first; an error of the validator is the result, and
+    only after `Ok(())` is the inner receiver asked. -/
+theorem newtype_receiver_validates (env : Env.T) (run conv) (r : Options.ROuter)
+    (f : Options.RField) (d : DeclD) (diss : DISS)
+    (h : r.base.data = .struct .tuple [f]) (ht : r.trait_ = .fromDeriveInput)
+    (hs : r.supports = some diss) :
+    Env.runOuter env run conv r (.deriveInput d) =
+      match diss.validateBody d.body.shape with
+      | .ok () => newtypeDelegation run r f (.deriveInput d)
+      | .err e => .err e
+      | .panic m => .panic m := by
+  unfold Env.runOuter newtypeDelegation
+  simp only [h, ht, hs]
+  cases diss.validateBody d.body.shape <;> rfl
+
+/-- a body the declaration refuses is refused by the receiver, with the validator's error -/
+theorem newtype_receiver_rejects (env : Env.T) (run conv) (r : Options.ROuter)
+    (f : Options.RField) (d : DeclD) (diss : DISS) (e : Err)
+    (h : r.base.data = .struct .tuple [f]) (ht : r.trait_ = .fromDeriveInput)
+    (hs : r.supports = some diss) (hv : diss.validateBody d.body.shape = .err e) :
+    Env.runOuter env run conv r (.deriveInput d) = .err e := by
+  rw [newtype_receiver_validates env run conv r f d diss h ht hs, hv]
+
+/-- a body the declaration admits is handed to the inner receiver, as before -/
+theorem newtype_receiver_delegates (env : Env.T) (run conv) (r : Options.ROuter)
+    (f : Options.RField) (d : DeclD) (diss : DISS)
+    (h : r.base.data = .struct .tuple [f]) (ht : r.trait_ = .fromDeriveInput)
+    (hs : r.supports = some diss) (hv : diss.validateBody d.body.shape = .ok ()) :
+    Env.runOuter env run conv r (.deriveInput d) = newtypeDelegation run r f (.deriveInput d) := by
+  rw [newtype_receiver_validates env run conv r f d diss h ht hs, hv]
+
+/-- the shape check adds no panic: a newtype receiver panics only if the delegation does -/
+theorem newtype_receiver_panics_only_inside (env : Env.T) (run conv) (r : Options.ROuter)
+    (f : Options.RField) (d : DeclD) (diss : DISS) (m : String)
+    (h : r.base.data = .struct .tuple [f]) (ht : r.trait_ = .fromDeriveInput)
+    (hs : r.supports = some diss)
+    (hp : Env.runOuter env run conv r (.deriveInput d) = .panic m) :
+    newtypeDelegation run r f (.deriveInput d) = .panic m := by
+  rw [newtype_receiver_validates env run conv r f d diss h ht hs] at hp
+  cases hv : diss.validateBody d.body.shape with
+  | ok u => rw [hv] at hp; exact hp
+  | err e => rw [hv] at hp; cases hp
+  | panic m' => exact absurd hv (validateBody_never_panics _ _ _)
+
+/-- **C18, newtype receivers, end to end.**  With the declaration `supports(w₁, …, wₙ)` read at
+    derive time, a newtype receiver accepts an input exactly when the body's shape is in the
+    declared set AND the inner receiver accepts the input. -/
+theorem newtype_receiver_accepts_iff (env : Env.T) (run conv) (r : Options.ROuter)
+    (f : Options.RField) (d : DeclD) (diss : DISS) {items : List NestedMeta} {ws : List SWord}
+    (hsp : Spells items ws) (hd : DISS.fromList items = .ok diss)
+    (h : r.base.data = .struct .tuple [f]) (ht : r.trait_ = .fromDeriveInput)
+    (hs : r.supports = some diss) :
+    (Env.runOuter env run conv r (.deriveInput d)).isOk = true ↔
+      Accepts ws d.body.shape ∧ (newtypeDelegation run r f (.deriveInput d)).isOk = true := by
+  have hacc := derived_accepts_iff hsp d.body.shape
+  simp only [derived, hd] at hacc
+  rw [newtype_receiver_validates env run conv r f d diss h ht hs, ← hacc]
+  cases diss.validateBody d.body.shape with
+  | ok u => simp only [Outcome.isOk, true_and]
+  | err e => simp only [Outcome.isOk, Bool.false_eq_true, false_and]
+  | panic m => simp only [Outcome.isOk, Bool.false_eq_true, false_and]
+
+/-- in particular: whatever the inner receiver would say, only declared shapes get through -/
+theorem newtype_receiver_accepts_only_declared (env : Env.T) (run conv) (r : Options.ROuter)
+    (f : Options.RField) (d : DeclD) (diss : DISS) {items : List NestedMeta} {ws : List SWord}
+    (hsp : Spells items ws) (hd : DISS.fromList items = .ok diss)
+    (h : r.base.data = .struct .tuple [f]) (ht : r.trait_ = .fromDeriveInput)
+    (hs : r.supports = some diss)
+    (hok : (Env.runOuter env run conv r (.deriveInput d)).isOk = true) :
+    Accepts ws d.body.shape :=
+  ((newtype_receiver_accepts_iff env run conv r f d diss hsp hd h ht hs).mp hok).1
 
 /-- a newtype receiver `struct W(Inner);` declaring `supports(struct_named)` -/
 def wrapperReceiver : Options.ROuter :=
@@ -938,15 +1041,25 @@ def wrapperReceiver : Options.ROuter :=
               data := .struct .tuple [{ (default : Options.RField) with ty := .recv "Inner" }] }
     supports := some { structValues := { pre := "struct_", named := true } } }
 
-/-- D1, concrete: the validator the receiver declared refuses a union, and yet the receiver
-    accepts the union as soon as the inner receiver does -/
+/-- D1 repaired, concrete: the union is now REJECTED by the wrapper, with the validator's error,
+    even though the inner receiver would accept it; a named struct still goes through -/
 example (env : Env.T) (conv) :
-    (∃ d, wrapperReceiver.supports = some d ∧
-        d.validateBody .union = .err (Err.new (.unsupportedShape "union" none))) ∧
     Env.runOuter env (fun _ _ => .ok .unit) conv wrapperReceiver
         (.deriveInput { ident := "U", attrs := [], body := .union })
+      = .err (Err.new (.unsupportedShape "union" none)) ∧
+    Env.runOuter env (fun _ _ => .ok .unit) conv wrapperReceiver
+        (.deriveInput { ident := "A", attrs := [], body := .struct .named [] })
       = .ok (.record "W" [("0", .unit)]) :=
-  ⟨⟨_, rfl, rfl⟩, rfl⟩
+  ⟨rfl, rfl⟩
+
+/-- the hypotheses of the newtype theorems hold for `wrapperReceiver` and the parsed declaration
+    `supports(struct_named)` -/
+example :
+    wrapperReceiver.base.data = .struct .tuple [{ (default : Options.RField) with ty := .recv "Inner" }] ∧
+    wrapperReceiver.trait_ = .fromDeriveInput ∧
+    (∃ diss, wrapperReceiver.supports = some diss ∧
+      DISS.fromList [SWord.item (.fam .struct (some .named))] = .ok diss) :=
+  ⟨rfl, rfl, _, rfl, rfl⟩
 
 /-!
   D2 — "`struct_*` / `enum_*` words are additive" holds inside ONE `supports(...)` list only.
@@ -1043,12 +1156,9 @@ example : ¬ AcceptsVariant [some .newtype, some .unit] .tuple := by
   rintro ⟨c, hc, ha⟩
   simp only [List.mem_cons, List.not_mem_nil, or_false] at hc
   rcases hc with rfl | rfl <;> rcases ha with h | ⟨h, _⟩ <;> cases h
--- D1 / D2 hypotheses
+-- D2 hypotheses (those of the newtype theorems are exhibited next to `wrapperReceiver`)
 example : (supportsMeta [SWord.item (.fam .enum (some .unit))]).path'.isIdent "supports" = true := rfl
 example : ∃ v, Options.readOptDISS (supportsMeta [SWord.item (.fam .enum (some .unit))]) = .ok v :=
   ⟨_, rfl⟩
-example : ∃ r : Options.ROuter, ∃ f, r.base.data = .struct .tuple [f] :=
-  ⟨{ (default : Options.ROuter) with
-      base := { (default : Options.RCore) with data := .struct .tuple [default] } }, default, rfl⟩
 
 end C18
